@@ -1,8 +1,8 @@
 package an
 
 import (
-	"go/constant"
 	"fmt"
+	"go/constant"
 	"go/token"
 	"go/types"
 	"sort"
@@ -498,7 +498,6 @@ func boolHelperDNF(call *ssa.Call) (dnf [][]Lit, subst map[*ssa.Parameter]string
 	return dnf, subst, true
 }
 
-
 // PredSet is the set of domain assignments (rendered "t=v, …") under which a block is reached.
 type PredSet struct {
 	True  map[string]bool
@@ -576,7 +575,6 @@ func enumDomain(domain map[string][]int64, visit func(env map[string]int64, key 
 	rec(0)
 }
 
-
 // exitedLoopLit: l is the condition of a loop header whose loop does not contain b: on every
 // acyclic path to b it is taken on its exit edge, and it says nothing about the data the
 // predicate at b is about (how many entries an earlier loop walked through).
@@ -609,7 +607,6 @@ func exitedLoopLit(l Lit, b *ssa.BasicBlock) bool {
 	return false
 }
 
-
 // reachUnder: is the block reached under env?  A branch condition that the domain does not
 // determine (a test on something the specification does not mention) is left free: the
 // answer must then be the same whichever way such tests go — they sit on a diamond that
@@ -617,8 +614,8 @@ func exitedLoopLit(l Lit, b *ssa.BasicBlock) bool {
 func reachUnder(dnf [][]Lit, env map[string]int64, as map[string]bool, b *ssa.BasicBlock) (bool, string) {
 	type lv struct {
 		known, val bool
-		key      string
-		pol      bool
+		key        string
+		pol        bool
 	}
 	free := map[string]bool{}
 	var order []string
